@@ -2,11 +2,42 @@
 package main
 
 import (
+	"fmt"
+	"io"
 	"os"
 
 	"panmc/internal/core"
+	"panmc/internal/panrun"
 
+	_ "panmc/checks/c02"
 	_ "panmc/checks/c10"
 )
 
-func main() { os.Exit(core.Main(os.Args[1:])) }
+func main() {
+	if len(os.Args) >= 3 && (os.Args[1] == "ast" || os.Args[1] == "eval") {
+		// debugging helpers: one source per argument
+		r := (*panrun.Runner)(nil)
+		for _, src := range os.Args[2:] {
+			if src == "-" {
+				b, _ := io.ReadAll(os.Stdin)
+				src = string(b)
+			}
+			if os.Args[1] == "ast" {
+				n, o := panrun.Parse(src)
+				if o != nil {
+					fmt.Printf("%s\n  => %s %s%s\n", src, o.Kind, o.ErrMsg, o.Panic)
+				} else {
+					fmt.Printf("%s\n  => %s\n", src, n.String())
+				}
+				continue
+			}
+			if r == nil {
+				r = panrun.New()
+			}
+			o := r.EvalSrc(src, "")
+			fmt.Printf("%s\n  => %s\n", src, o.Key())
+		}
+		return
+	}
+	os.Exit(core.Main(os.Args[1:]))
+}
